@@ -35,6 +35,7 @@ import (
 	"github.com/influxdata/influxdb"
 	"github.com/influxdata/influxdb/models"
 	"github.com/influxdata/influxdb/prometheus"
+	originql "github.com/influxdata/influxql"
 	"github.com/openGemini/openGemini/engine/executor"
 	"github.com/openGemini/openGemini/engine/op"
 	"github.com/openGemini/openGemini/lib/bufferpool"
@@ -631,6 +632,12 @@ func (h *Handler) servePromBaseQuery(w http.ResponseWriter, r *http.Request, use
 
 	// TODO support instant query
 	if h.Config.ResultCache.Enabled && promCommand.Evaluation == nil && !async && !isExplain {
+		// A full cache hit is answered without going through execQuery, which is where the
+		// query is authorized, and the cache key carries no user: check the database privilege here.
+		if h.Config.AuthEnabled && user != nil && !user.AuthorizeDatabase(originql.ReadPrivilege, db) {
+			respondError(w, &apiError{errorForbidden, fmt.Errorf("error authorizing query: %s not authorized to read database %s", user.ID(), db)})
+			return
+		}
 		reqInfo := &RequestInfo{
 			h: h,
 			w: w,
